@@ -118,7 +118,7 @@ def evaluate(run, cases, tag, cleanup, trace=False):
 
 def cleanup_variant(cases):
     """Which variant of addOrUpdateTransportServer the tree has: does an update of a passthrough
-    TransportServer to a non-passthrough one drop its host from the map (fix F30) or not."""
+    TransportServer to a non-passthrough one drop its host from the map (fix F33) or not."""
     for c in cases:
         if c["fam"] == "hist" and c["class"] == "witness-pt-update" and not has_error(c):
             return len(c["obs"][1]["hosts"]) == 0
